@@ -966,6 +966,7 @@ func (e *Engine) addExtents(st *State, v Value, t types.Type) {
 // known to be valid on this path.
 func (e *Engine) memOblig(fr *frame, st *State, p Ptr, size int64, detail string, pos token.Pos) {
 	c := e.C
+	size0 := size
 	if isFreshRegion(p.R) && p.O.IsConst() {
 		// constant offset into an allocation of this call: decide directly
 		for _, x := range st.ext {
@@ -980,8 +981,10 @@ func (e *Engine) memOblig(fr *frame, st *State, p Ptr, size int64, detail string
 		if c.regionsDistinct(x.R, p.R) {
 			continue
 		}
-		alts = append(alts, c.And(c.Eq(p.R, x.R), c.Ule(x.Lo, p.O), c.Ule(end, x.Hi), c.Ule(p.O, end)))
+		off, size := c.Sub(p.O, x.Lo), c.Sub(x.Hi, x.Lo)
+		alts = append(alts, c.And(c.Eq(p.R, x.R), c.Ule(off, size), c.Ule(c.Const(64, uint64(size0)), c.Sub(size, off))))
 	}
+	_ = end
 	e.oblige(st, fr, "mem", detail, c.Or(alts...), pos)
 }
 
